@@ -30,13 +30,11 @@ theorem base_done : DoneLayer base := by
   intro r res r' h
   unfold base at h
   simp only at h
-  split at h
-  · simp only [Option.some.injEq, Prod.mk.injEq] at h; obtain ⟨rfl, _⟩ := h; rfl
-  · split at h
-    · split at h
-      · simp at h
-      · simp only [Option.some.injEq, Prod.mk.injEq] at h; obtain ⟨rfl, _⟩ := h; rfl
-    · simp only [Option.some.injEq, Prod.mk.injEq] at h; obtain ⟨rfl, _⟩ := h; rfl
+  generalize ((r.emitSeen "fn" 0 r.seenLast).trigger "fn") = X at h
+  repeat' (split at h)
+  all_goals first
+    | (simp at h; done)
+    | (simp only [Option.some.injEq, Prod.mk.injEq] at h; obtain ⟨rfl, _⟩ := h; rfl)
 
 theorem retry_done (pos : Nat) (m : Int) (rl : Bool) (h a : List Cond) (inner : Layer) (hi : DoneLayer inner) :
     ∀ fuel, DoneLayer (retryLoop pos m rl h a inner fuel) := by
@@ -52,9 +50,9 @@ theorem retry_done (pos : Nat) (m : Int) (rl : Bool) (h a : List Cond) (inner : 
       obtain ⟨res1, r1⟩ := x
       have h1 := hi r res1 r1 hin
       simp only [hin] at hh
-      by_cases hc : r1.cancelled = true
+      by_cases hc : r1.isCanc = true
       · simp only [hc, if_true, Option.some.injEq, Prod.mk.injEq] at hh
-        obtain ⟨rfl, _⟩ := hh; rfl
+        obtain ⟨rfl, _⟩ := hh; exact Run.cancelRes_done _
       · simp only [hc] at hh
         by_cases he : r1.exceeded.contains pos = true
         · simp only [he, if_true, Option.some.injEq, Prod.mk.injEq] at hh
@@ -66,7 +64,13 @@ theorem retry_done (pos : Nat) (m : Int) (rl : Bool) (h a : List Cond) (inner : 
             · simp only [hd, if_true, Option.some.injEq, Prod.mk.injEq] at hh
               obtain ⟨rfl, _⟩ := hh; exact hd
             · simp only [hd] at hh
-              exact ih _ res r' hh
+              generalize (({ (retryOnFailure pos m rl a res1.withFailure r1).2 with
+                  last := (retryOnFailure pos m rl a res1.withFailure r1).1.outcome }).emit "rp.onRetryScheduled" pos).trigger "rp.onRetryScheduled" = X at hh
+              by_cases hx : X.isCanc = true
+              · simp only [hx, if_true, Option.some.injEq, Prod.mk.injEq] at hh
+                obtain ⟨rfl, _⟩ := hh; exact Run.cancelRes_done _
+              · simp only [hx] at hh
+                exact ih _ res r' hh
           · simp only [hfl, Option.some.injEq, Prod.mk.injEq] at hh
             obtain ⟨rfl, _⟩ := hh; rfl
 
@@ -95,7 +99,7 @@ theorem hedge_done (pos n : Nat) (co : List Cond) (inner : Layer) (hi : DoneLaye
       all_goals first
         | (simp at h; done)
         | exact ih _ _ _ _ _ _ h
-        | (simp only [Option.some.injEq, Prod.mk.injEq] at h; obtain ⟨rfl, _⟩ := h; first | exact h1 | rfl)
+        | (simp only [Option.some.injEq, Prod.mk.injEq] at h; obtain ⟨rfl, _⟩ := h; first | exact h1 | rfl | exact Run.cancelRes_done _)
 
 theorem applyPolicy_done (fuel pos : Nat) (p : Policy) (inner : Layer) (hi : DoneLayer inner) :
     DoneLayer (applyPolicy fuel pos p inner) := by
@@ -169,7 +173,7 @@ theorem applyPolicy_done (fuel pos : Nat) (p : Policy) (inner : Layer) (hi : Don
       obtain ⟨res1, r1⟩ := x
       simp only [hin] at hh
       repeat' (split at hh)
-      all_goals (simp only [Option.some.injEq, Prod.mk.injEq] at hh; obtain ⟨rfl, _⟩ := hh; rfl)
+      all_goals (simp only [Option.some.injEq, Prod.mk.injEq] at hh; obtain ⟨rfl, _⟩ := hh; first | rfl | exact Run.cancelRes_done _)
   | timeout =>
     intro r res r' hh
     simp only [applyPolicy] at hh
